@@ -5,6 +5,11 @@ import (
 	"encoding/json"
 	"errors"
 	"fmt"
+	"go/ast"
+	"go/parser"
+	"go/token"
+	"os"
+	"path/filepath"
 	"reflect"
 	"sort"
 	"strings"
@@ -147,8 +152,91 @@ func outcomeOf(desc string) (string, int) {
 	return cur.outcomes[desc], cur.delays[desc]
 }
 
+// entityParamNames reads the parameter names of the generated EntityResolver interface from the
+// generated sources: a user's resolver body refers to its parameters by name, so the names are part
+// of what is generated (reflection does not see them).
+func entityParamNames(p *proj.Project) map[string][]string {
+	out := map[string][]string{}
+	dir := filepath.Join(os.Getenv("VF_WORK"), "h", "gen", p.Name, p.Vec)
+	pkgs, err := parser.ParseDir(token.NewFileSet(), dir, nil, 0)
+	if err != nil {
+		return out
+	}
+	for _, pkg := range pkgs {
+		for _, f := range pkg.Files {
+			ast.Inspect(f, func(n ast.Node) bool {
+				ts, ok := n.(*ast.TypeSpec)
+				if !ok || ts.Name.Name != "EntityResolver" {
+					return true
+				}
+				it, ok := ts.Type.(*ast.InterfaceType)
+				if !ok {
+					return true
+				}
+				for _, m := range it.Methods.List {
+					ft, ok := m.Type.(*ast.FuncType)
+					if !ok || len(m.Names) == 0 {
+						continue
+					}
+					var names []string
+					for _, prm := range ft.Params.List {
+						for _, n := range prm.Names {
+							names = append(names, n.Name)
+						}
+					}
+					if len(names) > 0 {
+						out[m.Names[0].Name] = names[1:] // without ctx
+					}
+				}
+				return false
+			})
+		}
+	}
+	return out
+}
+
+// goParam: the parameter name gqlgen gives a key field (sku -> sku, owner { id } -> ownerID).
+func goParam(path []string) string {
+	out := path[0]
+	for _, p := range path[1:] {
+		if p == "id" {
+			out += "ID"
+		} else {
+			out += strings.ToUpper(p[:1]) + p[1:]
+		}
+	}
+	return out
+}
+
+// byDeclaration orders the values a single-entity resolver received into the declaration order of
+// its key, going by the names of the parameters they were bound to (as a hand-written body would).
+func byDeclaration(resolver string, params []string, vals []any) []any {
+	for _, ent := range entities {
+		for _, kd := range ent.keys {
+			if kd.resolver != resolver || len(kd.fields) != len(vals) || len(params) != len(vals) {
+				continue
+			}
+			out := make([]any, len(vals))
+			for k, path := range kd.fields {
+				at := -1
+				for j, pn := range params {
+					if pn == goParam(path) {
+						at = j
+					}
+				}
+				if at < 0 {
+					return vals
+				}
+				out[k] = vals[at]
+			}
+			return out
+		}
+	}
+	return vals
+}
+
 // fillEntityResolvers installs the harness's entity resolvers into a generated Stub.
-func fillEntityResolvers(stub any) {
+func fillEntityResolvers(stub any, paramNames map[string][]string) {
 	sv := reflect.ValueOf(stub).Elem().FieldByName("EntityResolver")
 	st := sv.Type()
 	for i := 0; i < st.NumField(); i++ {
@@ -159,7 +247,7 @@ func fillEntityResolvers(stub any) {
 			noErr := reflect.Zero(errType)
 			mkErr := func(msg string) reflect.Value { return reflect.ValueOf(errors.New(msg)).Convert(errType) }
 			if !multi {
-				desc := keyDesc(name, treeVals(in[1:]))
+				desc := keyDesc(name, byDeclaration(name, paramNames[name], treeVals(in[1:])))
 				oc, d := outcomeOf(desc)
 				if d > 0 {
 					time.Sleep(time.Duration(d) * time.Microsecond)
@@ -308,7 +396,11 @@ func servers(name string) ([]*proj.Server, error) {
 		return nil, err
 	}
 	for _, s := range ss {
-		fillEntityResolvers(s.Stub)
+		names := entityParamNames(s.P)
+		if len(names) == 0 {
+			return nil, fmt.Errorf("no EntityResolver interface found in the generated sources of %s/%s", s.P.Name, s.P.Vec)
+		}
+		fillEntityResolvers(s.Stub, names)
 		fillRequiresResolvers(s.Stub)
 	}
 	built[name] = ss
